@@ -1,9 +1,489 @@
 /-
-  QEModel.C15 — executable model for property C15 (stub; to be filled in).
+  QEModel.C15 — approximate solvers deliver the accuracy they report.
+  Mirrors
+    quantecon/_compute_fp.py
+        compute_fixed_point 105-156  (argument checks, the plain iteration, the warning),
+        _is_approx_fp 42-44, _compute_fixed_point_ig 190-282 (imitation-game state machine,
+        the X/Y buffers of 215-253 as an explicit capacity + contents), _initialize_tableaux_ig
+        314-353, _square_sum_array 369-372;
+    quantecon/game_theory/lemke_howson.py  _lemke_howson_tbl 377-418, _get_mixed_actions 444-459
+        (on top of QEModel.Pivot = optimize/pivoting.py), for the square imitation game;
+    quantecon/game_theory/mclennan_tourky.py  mclennan_tourky 107-136, _best_response_selection
+        178-200, _is_epsilon_nash 227-233, _get_action_profile, _flatten_action_profile;
+    quantecon/game_theory/normal_form_game.py  Player.payoff_vector 252-274 (mixed opponents),
+        is_best_response 303-309, best_response 362-372 ('smallest'), NormalFormGame.is_nash 809-832.
+
+  Points are `List α`; the map `T`, the predicate `is_approx_fp` and the rule producing the next
+  point from the stored history are *parameters* of the loops, so that the same loop definitions
+  run (a) with the real rule (Lemke–Howson on the imitation game, convex combination of images),
+  (b) replaying the points the code visited, and are reasoned about for every `T`.
 -/
 import QEModel.Base
+import QEModel.Pivot
 namespace QE.C15
+open QE QE.Pivot
 
-def handle (_toks : List String) : String := "bad-op"
+section generic
+variable {α : Type} [Zero α] [One α] [Add α] [Sub α] [Mul α] [Div α] [Neg α] [LT α] [LE α]
+  [DecidableLT α] [DecidableLE α] [BEq α]
+
+/-! ### sup-norm distance: `np.max(np.abs(a - b))` -/
+
+def absv (x : α) : α := if x < 0 then -x else x
+
+def maxOf (l : List α) : α := l.foldl (fun acc v => if acc < v then v else acc) 0
+
+/-- `np.max(np.abs(a - b))` for two vectors of the same length (all terms are `≥ 0`) -/
+def maxAbsDiff (a b : List α) : α := maxOf (List.zipWith (fun x y => absv (x - y)) a b)
+
+/-! ### compute_fixed_point, method='iteration' (lines 123-156) -/
+
+structure IterOut (V α : Type) where
+  v : V
+  error : α
+  iterate : Nat
+
+/-- the `while True` loop of lines 129-140. `fuel = max_iter - iterate - 1` is the number of
+    further passes the test `iterate >= max_iter` allows after this one; `it` is `iterate`
+    on entry. The value returned is the **new** iterate `T v`, the error `‖T v − v‖`. -/
+def fpIterLoop {V : Type} (T : V → V) (err : V → V → α) (tol : α) : Nat → V → Nat → IterOut V α
+  | 0, v, it => ⟨T v, err (T v) v, it + 1⟩
+  | fuel + 1, v, it =>
+    if err (T v) v ≤ tol then ⟨T v, err (T v) v, it + 1⟩
+    else fpIterLoop T err tol fuel (T v) (it + 1)
+
+/-- `compute_fixed_point(T, v, error_tol, max_iter, method='iteration')` for `max_iter ≥ 1` -/
+def fpIterate {V : Type} (T : V → V) (err : V → V → α) (tol : α) (maxIter : Nat) (v : V) :
+    IterOut V α :=
+  fpIterLoop T err tol (maxIter - 1) v 0
+
+/-- line 151: the non-convergence `RuntimeWarning` is issued iff `error > error_tol` -/
+def iterWarn {V : Type} (tol : α) (o : IterOut V α) : Bool := decide (tol < o.error)
+
+/-- `_is_approx_fp(T, v, error_tol)` -/
+def isApproxFp (T : List α → List α) (tol : α) (v : List α) : Bool :=
+  decide (maxAbsDiff (T v) v ≤ tol)
+
+/-! ### _compute_fixed_point_ig (lines 190-282) -/
+
+structure IGOut (V : Type) where
+  x : V
+  converged : Bool
+  iterate : Nat
+
+/-- the `while True` loop of lines 227-269. `X`, `Y` are the stored sequences `X[:iterate]`,
+    `Y[:iterate]`, `x` is `x_new`, `it` is `iterate` on entry; `next X Y` is lines 255-269
+    (tableaux, Lemke–Howson, `rho.dot(Y[:m])`). `fuel` bounds the number of passes
+    (`max_iter - iterate` suffices, see `igLoop_iterate_le`). -/
+def igLoop {V : Type} (T : V → V) (isFp : V → Bool) (next : List V → List V → V) (maxIter : Nat) :
+    Nat → List V → List V → V → Nat → IGOut V
+  | 0, _, _, x, it => ⟨x, isFp x, it + 1⟩
+  | fuel + 1, X, Y, x, it =>
+    if isFp x ∨ it + 1 ≥ maxIter then ⟨x, isFp x, it + 1⟩
+    else igLoop T isFp next maxIter fuel (X ++ [x]) (Y ++ [T x]) (next (X ++ [x]) (Y ++ [T x])) (it + 1)
+
+/-- `_compute_fixed_point_ig(T, v, max_iter, verbose, print_skip, is_approx_fp)`; returns
+    `(x_new, converged, iterate)`. Lines 190-206 (first evaluation, early return), 220-221
+    (`X[0], Y[0] = v, T(v)`, `x_new = Y[0]`), then the loop. -/
+def fixedPointIG {V : Type} (T : V → V) (isFp : V → Bool) (next : List V → List V → V)
+    (maxIter : Nat) (v : V) : IGOut V :=
+  if isFp v ∨ 1 ≥ maxIter then ⟨v, isFp v, 1⟩
+  else igLoop T isFp next maxIter (maxIter - 1) [v] [T v] (T v) 1
+
+/-! ### the X / Y buffers (lines 215-221, 240-253)
+
+`np.empty` contents are modelled by an arbitrary filler `junk`; a buffer is its capacity-many
+rows. Writing at an index `≥ capacity` raises `IndexError`, upon which the capacity becomes
+`min(max_iter, 2*capacity)`, the old rows are copied and the write is repeated. -/
+
+structure Buf (V : Type) where
+  rows : List V
+
+def Buf.cap {V : Type} (b : Buf V) : Nat := b.rows.length
+
+/-- `np.empty((size,) + shape)` -/
+def Buf.empty {V : Type} (junk : V) (size : Nat) : Buf V := ⟨List.replicate size junk⟩
+
+/-- lines 240-249 for one of the two arrays: `B[i] = v`, growing on `IndexError` -/
+def Buf.write {V : Type} (junk : V) (maxIter : Nat) (b : Buf V) (i : Nat) (v : V) : Buf V :=
+  if i < b.cap then ⟨b.rows.set i v⟩
+  else
+    let size := min maxIter (b.cap * 2)
+    -- X[:X_tmp.shape[0]] = X_tmp ; then the write (which must now succeed)
+    ⟨((b.rows ++ List.replicate (size - b.cap) junk).set i v)⟩
+
+/-- `B[:m]` -/
+def Buf.take {V : Type} (b : Buf V) (m : Nat) : List V := b.rows.take m
+
+/-- the loop of lines 227-269 on explicit buffers -/
+def igLoopBuf {V : Type} (junk : V) (T : V → V) (isFp : V → Bool) (next : List V → List V → V)
+    (maxIter : Nat) : Nat → Buf V → Buf V → V → Nat → IGOut V
+  | 0, _, _, x, it => ⟨x, isFp x, it + 1⟩
+  | fuel + 1, X, Y, x, it =>
+    if isFp x ∨ it + 1 ≥ maxIter then ⟨x, isFp x, it + 1⟩
+    else
+      let X' := X.write junk maxIter it x
+      let Y' := Y.write junk maxIter it (T x)
+      igLoopBuf junk T isFp next maxIter fuel X' Y' (next (X'.take (it + 1)) (Y'.take (it + 1))) (it + 1)
+
+/-- `_compute_fixed_point_ig` with the buffers of the code: initial capacity
+    `min(max_iter, buff0)` (`buff0 = 2**8` in the code) -/
+def fixedPointIGBuf {V : Type} (junk : V) (buff0 : Nat) (T : V → V) (isFp : V → Bool)
+    (next : List V → List V → V) (maxIter : Nat) (v : V) : IGOut V :=
+  if isFp v ∨ 1 ≥ maxIter then ⟨v, isFp v, 1⟩
+  else
+    let size := min maxIter buff0
+    let X := (Buf.empty junk size).write junk maxIter 0 v
+    let Y := (Buf.empty junk size).write junk maxIter 0 (T v)
+    igLoopBuf junk T isFp next maxIter (maxIter - 1) X Y (T v) 1
+
+/-! ### the imitation game: _initialize_tableaux_ig, Lemke–Howson, rho -/
+
+/-- `_square_sum(X[i] - Y[j])` : `sum_ = 0; for x in d.flat: sum_ += x**2` -/
+def sqSum (a b : List α) : α :=
+  (List.zipWith (fun x y => x - y) a b).foldl (fun s d => s + d * d) 0
+
+/-- mover's tableau (lines 318-325): `[I | I | 1]` -/
+def igT0 (m : Nat) : M α :=
+  M.tab m (2 * m + 1) fun i j => if j = i ∨ j = i + m then 1 else if j = 2 * m then 1 else 0
+
+/-- imitator's tableau (lines 328-347): `[I | -‖X_i − Y_j‖² − min_j + 1 | 1]`, `min_j` the
+    minimum over `i` of column `j` (and of the initial `0`) -/
+def igT1 (m : Nat) (X Y : List (List α)) : M α :=
+  let pay : M α := M.tab m m fun i j => sqSum (X.getD i []) (Y.getD j []) * (-(1 : α))
+  let mins : Array α := Array.ofFn (n := m) fun j =>
+    (List.range m).foldl (fun mn i => if pay.get i j.1 < mn then pay.get i j.1 else mn) 0
+  M.tab m (2 * m + 1) fun i j =>
+    if j < m then (if j = i then 1 else 0)
+    else if j < 2 * m then (pay.get i (j - m) - mins.getD (j - m) 0) + 1
+    else 1
+
+structure LHState (α : Type) where
+  T0 : M α
+  T1 : M α
+  b0 : List Nat
+  b1 : List Nat
+  pivot : Nat
+  numIter : Nat
+
+/-- lines 349-351: `bases = (m..2m-1, 0..m-1)` -/
+def igInit (m : Nat) (X Y : List (List α)) (pivot : Nat) : LHState α :=
+  ⟨igT0 m, igT1 m X Y, (List.range m).map (· + m), List.range m, pivot, 0⟩
+
+/-- body of `for pl in pls` (lemke_howson.py 398-407); `slack_starts = (m, 0)` -/
+def lhStep (m : Nat) (tp td : α) (s : LHState α) (pl : Nat) : LHState α :=
+  if pl = 0 then
+    let r := (lexMinRatio s.T0 s.pivot m tp td).2
+    { s with T0 := pivot s.T0 s.pivot r, b0 := s.b0.set r s.pivot, pivot := s.b0.getD r 0,
+             numIter := s.numIter + 1 }
+  else
+    let r := (lexMinRatio s.T1 s.pivot 0 tp td).2
+    { s with T1 := pivot s.T1 s.pivot r, b1 := s.b1.set r s.pivot, pivot := s.b1.getD r 0,
+             numIter := s.numIter + 1 }
+
+/-- the `while True` loop of `_lemke_howson_tbl` (395-416); `fuel = max_iter - 1` -/
+def lhLoop (m initPivot : Nat) (tp td : α) : Nat → LHState α → Nat → Bool × LHState α
+  | 0, s, pl =>
+    let s' := lhStep m tp td s pl
+    (decide (s'.pivot = initPivot), s')
+  | fuel + 1, s, pl =>
+    let s' := lhStep m tp td s pl
+    if s'.pivot = initPivot then (true, s') else lhLoop m initPivot tp td fuel s' (1 - pl)
+
+/-- `_lemke_howson_tbl(tableaux_curr, bases_curr, init_pivot=m-1, max_iter=max_piv)` on the
+    imitation game of the history `(X, Y)` -/
+def igLH (X Y : List (List α)) (maxPiv : Nat) (tp td : α) : Bool × LHState α :=
+  let m := X.length
+  let s0 : LHState α := igInit m X Y (m - 1)
+  let initPlayer := if s0.b0.contains (m - 1) then 1 else 0
+  lhLoop m (m - 1) tp td (maxPiv - 1) s0 initPlayer
+
+def basicSum (T : M α) (b : List Nat) (start stop : Nat) : α :=
+  (List.range T.nr).foldl (fun acc i =>
+    let k := b.getD i 0
+    if start ≤ k ∧ k < stop then acc + T.get i (T.nc - 1) else acc) 0
+
+def basicVal (T : M α) (b : List Nat) (k : Nat) : α :=
+  (List.range T.nr).foldl (fun acc i => if b.getD i 0 = k then T.get i (T.nc - 1) else acc) 0
+
+/-- `_get_mixed_actions` for one player -/
+def mixedOf (T : M α) (b : List Nat) (start stop : Nat) : List α :=
+  let s := basicSum T b start stop
+  (List.range' start (stop - start)).map fun k =>
+    if s == 0 then basicVal T b k else basicVal T b k / s
+
+/-- `_, rho = _get_mixed_actions(tableaux_curr, bases_curr)` -/
+def igRho (X Y : List (List α)) (maxPiv : Nat) (tp td : α) : List α :=
+  let m := X.length
+  let s := (igLH X Y maxPiv tp td).2
+  mixedOf s.T1 s.b1 m (2 * m)
+
+/-- `rho.dot(Y[:m])` : component `k` is `Σ_j rho_j * Y[j][k]`, accumulated in the order of `j` -/
+def dotRows (rho : List α) (Y : List (List α)) : List α :=
+  (List.range (Y.headD []).length).map fun k =>
+    (List.zipWith (fun r y => r * y.getD k 0) rho Y).foldl (fun acc t => acc + t) 0
+
+/-- lines 255-269 with an arbitrary rule `lh` producing `rho` from the history -/
+def igNextWith (lh : List (List α) → List (List α) → List α) (X Y : List (List α)) : List α :=
+  dotRows (lh X Y) Y
+
+/-- lines 255-269 -/
+def igNext (maxPiv : Nat) (tp td : α) (X Y : List (List α)) : List α :=
+  igNextWith (fun X Y => igRho X Y maxPiv tp td) X Y
+
+/-! ### N-player games: payoff vectors against mixed opponents, ε-Nash, best-response selection
+
+`nums` = numbers of actions; `pays.getD i []` = player `i`'s payoff array, C-order flattened,
+axes `(a_i, a_{i+1}, …, a_{N-1}, a_0, …, a_{i-1})`; a profile is a list of `N` mixed actions;
+a flattened profile `x` has `x[indptr[i]:indptr[i+1]]` = player `i`'s mixed action. -/
+
+/-- `l[i:] + l[:i]` -/
+def rot {β : Type} (l : List β) (i : Nat) : List β := l.drop i ++ l.take i
+
+/-- `payoff_array.dot(action)` over the last axis, of length `k` -/
+def reduceLast (arr : List α) (k : Nat) (act : List α) : List α :=
+  (List.range (arr.length / k)).map fun t =>
+    (List.range k).foldl (fun acc b => acc + arr.getD (t * k + b) 0 * act.getD b 0) 0
+
+/-- `players[i].payoff_vector(opponents_actions)` with
+    `opponents_actions = profile[i+1:] + profile[:i]`, all mixed: the axes are reduced from the
+    last one (lines 267-270) -/
+def payoffVector (nums : List Nat) (pay : List α) (i : Nat) (prof : List (List α)) : List α :=
+  ((List.zip (rot nums i).tail (rot prof i).tail).reverse).foldl
+    (fun arr p => reduceLast arr p.1 p.2) pay
+
+/-- `payoff_vector.max()` -/
+def vecMax (v : List α) : α := v.tail.foldl (fun acc x => if acc < x then x else acc) (v.headD 0)
+
+/-- `np.dot(own_action, payoff_vector)` -/
+def dot (a b : List α) : α := (List.zipWith (fun x y => x * y) a b).foldl (fun acc t => acc + t) 0
+
+/-- `is_best_response(own_action, opponents_actions, tol)` for a mixed own action, given the
+    payoff vector: `np.dot(own, pv) >= pv.max() - tol` -/
+def isBestResponse (tol : α) (own pv : List α) : Bool := decide (vecMax pv - tol ≤ dot own pv)
+
+/-- `g.is_nash(action_profile, tol)` for a profile of mixed actions, `N ≥ 2` -/
+def isNashTol (nums : List Nat) (pays : List (List α)) (tol : α) (prof : List (List α)) : Bool :=
+  (List.range nums.length).all fun i =>
+    isBestResponse tol (prof.getD i []) (payoffVector nums (pays.getD i []) i prof)
+
+/-- `indptr[i]` -/
+def indptr (nums : List Nat) (i : Nat) : Nat := (nums.take i).foldl (· + ·) 0
+
+/-- `_get_action_profile(x, indptr)` -/
+def unflatten (nums : List Nat) (x : List α) : List (List α) :=
+  (List.range nums.length).map fun i => (x.drop (indptr nums i)).take (nums.getD i 0)
+
+/-- `_is_epsilon_nash(x, g, epsilon, indptr)` -/
+def isEpsNash (nums : List Nat) (pays : List (List α)) (eps : α) (x : List α) : Bool :=
+  isNashTol nums pays eps (unflatten nums x)
+
+/-- `best_response(…, tie_breaking='smallest', tol)`: the first action whose payoff is
+    `>= max - tol` (`np.where(pv >= pv.max() - tol)[0][0]`) -/
+def bestResponse (tol : α) (pv : List α) : Nat :=
+  let mx := vecMax pv
+  pv.findIdx fun p => decide (mx - tol ≤ p)
+
+/-- `pure2mixed(n, a)` -/
+def pure2mixed (n a : Nat) : List α := (List.range n).map fun k => if k = a then 1 else 0
+
+/-- `_best_response_selection(x, g, indptr)` : flattened profile of the pure best responses -/
+def brSelection (nums : List Nat) (pays : List (List α)) (tolBR : α) (x : List α) : List α :=
+  let prof := unflatten nums x
+  ((List.range nums.length).map fun i =>
+    pure2mixed (nums.getD i 0) (bestResponse tolBR (payoffVector nums (pays.getD i []) i prof))).flatten
+
+/-- `_flatten_action_profile(init, indptr)` for `init[i]` either a pure action (`Sum.inl a`)
+    or a mixed action -/
+def flattenInit (nums : List Nat) (init : List (Sum Nat (List α))) : List α :=
+  ((List.range nums.length).map fun i =>
+    match init.getD i (Sum.inl 0) with
+    | Sum.inl a => pure2mixed (nums.getD i 0) a
+    | Sum.inr v => v).flatten
+
+/-- `mclennan_tourky(g, init, epsilon, max_iter, full_output=True)` after the argument checks:
+    `(x_star, converged, num_iter)`; `tolBR` is the players' default `tol` (1e-8) used by
+    `best_response`, `next` lines 255-269 of `_compute_fp.py`. -/
+def mclennanTourky (nums : List Nat) (pays : List (List α)) (eps tolBR : α)
+    (next : List (List α) → List (List α) → List α) (maxIter : Nat) (x0 : List α) : IGOut (List α) :=
+  fixedPointIG (brSelection nums pays tolBR) (isEpsNash nums pays eps) next maxIter x0
+
+/-! ### maps used by the correspondence: affine maps, optionally clipped to a box -/
+
+/-- `T(v)_i = clip(Σ_j A[i][j] * v[j] + b[i])`, accumulated from `0` in the order of `j`,
+    `clip = min(max(·, lo), hi)` when `box = some (lo, hi)` -/
+def affClip (A : List (List α)) (b : List α) (box : Option (α × α)) (v : List α) : List α :=
+  (List.zipWith (fun row bi =>
+      let s := (List.zipWith (fun a x => a * x) row v).foldl (fun acc t => acc + t) 0 + bi
+      match box with
+      | none => s
+      | some (lo, hi) =>
+        let s1 := if s < lo then lo else s
+        if hi < s1 then hi else s1) A b)
+
+end generic
+
+/-! ### argument checks -/
+
+/-- lines 105-112 of `_compute_fp.py`: `none` = passes, `some e` = the exception raised -/
+def cfpArgCheck (maxIter : Int) (verbose : Int) (method : String) : Option String :=
+  if maxIter < 1 then some "ERR:ValueError"
+  else if ¬ (verbose = 0 ∨ verbose = 1 ∨ verbose = 2) then some "ERR:ValueError"
+  else if ¬ (method = "iteration" ∨ method = "imitation_game") then some "ERR:ValueError"
+  else none
+
+/-- lines 111-123 of `mclennan_tourky.py` -/
+def mtArgCheck (N initLen : Nat) : Option String :=
+  if N < 2 then some "ERR:NotImplementedError"
+  else if initLen ≠ N then some "ERR:ValueError"
+  else none
+
+/-! ### line protocol -/
+
+local instance : Zero Float := ⟨0.0⟩
+local instance : One Float := ⟨1.0⟩
+
+def showIter {β : Type} (sh : β → String) (tol : β) [LT β] [DecidableLT β] (o : IterOut (List β) β) : String :=
+  "v=" ++ showList sh o.v ++ " it=" ++ toString o.iterate ++ " warn=" ++ showBool (decide (tol < o.error)) ++
+  " err=" ++ sh o.error
+
+def showIG {β : Type} (sh : β → String) (o : IGOut (List β)) : String :=
+  "x=" ++ showList sh o.x ++ " conv=" ++ showBool o.converged ++ " it=" ++ toString o.iterate
+
+def shapedSq {β : Type} (n : Nat) (A : List (List β)) : Bool :=
+  A.length == n && A.all (fun r => r.length == n)
+
+def rows {β : Type} (n : Nat) (A : List (List β)) : Bool := A.all (fun r => r.length == n)
+
+/-- replay rule: the next point is the one the code visited (`xs[m]` after `m` stored points) -/
+def replayNext {β : Type} (xs : List (List β)) (X _Y : List (List β)) : List β := xs.getD X.length []
+
+def boxOf {β : Type} (clip : Nat) (lo hi : β) : Option (β × β) := if clip = 1 then some (lo, hi) else none
+
+def gameOk {β : Type} (nums : List Nat) (pays : List (List β)) : Bool :=
+  nums.length ≥ 2 && nums.all (· ≥ 1) && pays.length == nums.length &&
+  pays.all (fun p => p.length == nums.foldl (· * ·) 1)
+
+def tolPivQ : Rat := 1 / 10000000000
+def tolDiffQ : Rat := 1 / 1000000000000000
+
+/-- margin diagnostics (correspondence only): distance of the ε-Nash test from its threshold -/
+def nashMargin (nums : List Nat) (pays : List (List Rat)) (eps : Rat) (x : List Rat) : Rat :=
+  let prof := unflatten nums x
+  (List.range nums.length).foldl (fun mn i =>
+    let pv := payoffVector nums (pays.getD i []) i prof
+    let d := absv (dot (prof.getD i []) pv - (vecMax pv - eps))
+    if d < mn then d else mn) 1000000
+
+def handle (toks : List String) : String :=
+  match toks with
+  | "argcheck" :: r =>
+    match kvInt r "maxiter", kvInt r "verbose", kv r "method" with
+    | some mi, some vb, some me => (cfpArgCheck mi vb me).getD "ok"
+    | _, _, _ => "bad-op"
+  | "mtargcheck" :: r =>
+    match kvNat r "N", kvNat r "initlen" with
+    | some N, some l => (mtArgCheck N l).getD "ok"
+    | _, _ => "bad-op"
+  | "iter" :: r =>
+    match kvNat r "n", kvRatMat r "A", kvRats r "b", kvNat r "clip", kvRat r "lo", kvRat r "hi",
+          kvRats r "v", kvRat r "tol", kvNat r "maxiter" with
+    | some n, some A, some b, some clip, some lo, some hi, some v, some tol, some mi =>
+      if shapedSq n A && b.length == n && v.length == n && mi ≥ 1 && clip ≤ 1 then
+        showIter showRat tol (fpIterate (affClip A b (boxOf clip lo hi)) maxAbsDiff tol mi v)
+      else "bad-op"
+    | _, _, _, _, _, _, _, _, _ => "bad-op"
+  | "iterf" :: r =>
+    match kvNat r "n", kvFloatMat r "A", kvFloats r "b", kvNat r "clip", (kv r "lo").bind parseFloat?,
+          (kv r "hi").bind parseFloat?, kvFloats r "v", (kv r "tol").bind parseFloat?, kvNat r "maxiter" with
+    | some n, some A, some b, some clip, some lo, some hi, some v, some tol, some mi =>
+      if shapedSq n A && b.length == n && v.length == n && mi ≥ 1 && clip ≤ 1 then
+        showIter showFloatBits tol (fpIterate (affClip A b (boxOf clip lo hi)) maxAbsDiff tol mi v)
+      else "bad-op"
+    | _, _, _, _, _, _, _, _, _ => "bad-op"
+  | "igf" :: r =>
+    -- imitation-game method on an affine(-clipped) map, IEEE doubles; `mode=replay` takes the
+    -- next point from `xs` (the points the code visited), `mode=real` computes it (buffers with
+    -- initial capacity `buff0`)
+    match kvNat r "n", kvFloatMat r "A", kvFloats r "b", kvNat r "clip", (kv r "lo").bind parseFloat?,
+          (kv r "hi").bind parseFloat?, kvFloats r "v", (kv r "tol").bind parseFloat?, kvNat r "maxiter",
+          kv r "mode", kvFloatMat r "xs", kvNat r "buff0" with
+    | some n, some A, some b, some clip, some lo, some hi, some v, some tol, some mi, some mode, some xs, some b0 =>
+      if shapedSq n A && b.length == n && v.length == n && mi ≥ 1 && clip ≤ 1 && rows n xs && b0 ≥ 1 then
+        let T := affClip A b (boxOf clip lo hi)
+        if mode = "replay" then
+          showIG showFloatBits (fixedPointIGBuf [] b0 T (isApproxFp T tol) (replayNext xs) mi v)
+        else if mode = "real" then
+          showIG showFloatBits (fixedPointIGBuf [] b0 T (isApproxFp T tol) (igNext 1000000 tolPivF tolRatioDiffF) mi v)
+        else "bad-op"
+      else "bad-op"
+    | _, _, _, _, _, _, _, _, _, _, _, _ => "bad-op"
+  | "ig" :: r =>
+    -- the same at exact rationals
+    match kvNat r "n", kvRatMat r "A", kvRats r "b", kvNat r "clip", kvRat r "lo", kvRat r "hi",
+          kvRats r "v", kvRat r "tol", kvNat r "maxiter", kv r "mode", kvRatMat r "xs", kvNat r "buff0" with
+    | some n, some A, some b, some clip, some lo, some hi, some v, some tol, some mi, some mode, some xs, some b0 =>
+      if shapedSq n A && b.length == n && v.length == n && mi ≥ 1 && clip ≤ 1 && rows n xs && b0 ≥ 1 then
+        let T := affClip A b (boxOf clip lo hi)
+        if mode = "replay" then
+          showIG showRat (fixedPointIGBuf [] b0 T (isApproxFp T tol) (replayNext xs) mi v)
+        else if mode = "real" then
+          showIG showRat (fixedPointIGBuf [] b0 T (isApproxFp T tol) (igNext 1000000 tolPivQ tolDiffQ) mi v)
+        else "bad-op"
+      else "bad-op"
+    | _, _, _, _, _, _, _, _, _, _, _, _ => "bad-op"
+  | "igstepf" :: r =>
+    -- one pass of lines 255-269 on a given history, IEEE doubles
+    match kvFloatMat r "X", kvFloatMat r "Y" with
+    | some X, some Y =>
+      if X.length == Y.length && X.length ≥ 1 && rows (X.headD []).length X && rows (X.headD []).length Y then
+        let res := igLH X Y 1000000 tolPivF tolRatioDiffF
+        let m := X.length
+        let rho := mixedOf res.2.T1 res.2.b1 m (2 * m)
+        "conv=" ++ showBool res.1 ++ " piv=" ++ toString res.2.numIter ++
+        " b0=" ++ showList toString res.2.b0 ++ " b1=" ++ showList toString res.2.b1 ++
+        " rho=" ++ showList showFloatBits rho ++ " x=" ++ showList showFloatBits (dotRows rho Y)
+      else "bad-op"
+    | _, _ => "bad-op"
+  | "igstep" :: r =>
+    match kvRatMat r "X", kvRatMat r "Y" with
+    | some X, some Y =>
+      if X.length == Y.length && X.length ≥ 1 && rows (X.headD []).length X && rows (X.headD []).length Y then
+        let res := igLH X Y 1000000 tolPivQ tolDiffQ
+        let m := X.length
+        let rho := mixedOf res.2.T1 res.2.b1 m (2 * m)
+        "conv=" ++ showBool res.1 ++ " piv=" ++ toString res.2.numIter ++
+        " b0=" ++ showList toString res.2.b0 ++ " b1=" ++ showList toString res.2.b1 ++
+        " rho=" ++ showList showRat rho ++ " x=" ++ showList showRat (dotRows rho Y)
+      else "bad-op"
+    | _, _ => "bad-op"
+  | "isnash" :: r =>
+    match kvNats r "nums", kvRatMat r "pays", kvRats r "x", kvRat r "eps" with
+    | some nums, some pays, some x, some eps =>
+      if gameOk nums pays && x.length == nums.foldl (· + ·) 0 then
+        "nash=" ++ showBool (isEpsNash nums pays eps x) ++ " margin=" ++ showRat (nashMargin nums pays eps x)
+      else "bad-op"
+    | _, _, _, _ => "bad-op"
+  | "brsel" :: r =>
+    match kvNats r "nums", kvRatMat r "pays", kvRats r "x", kvRat r "tol" with
+    | some nums, some pays, some x, some tol =>
+      if gameOk nums pays && x.length == nums.foldl (· + ·) 0 then
+        showList showRat (brSelection nums pays tol x)
+      else "bad-op"
+    | _, _, _, _ => "bad-op"
+  | "mt" :: r =>
+    -- mclennan_tourky at exact rationals; mode=replay|real as for `ig`
+    match kvNats r "nums", kvRatMat r "pays", kvRats r "x0", kvRat r "eps", kvRat r "tolbr",
+          kvNat r "maxiter", kv r "mode", kvRatMat r "xs" with
+    | some nums, some pays, some x0, some eps, some tolbr, some mi, some mode, some xs =>
+      if gameOk nums pays && x0.length == nums.foldl (· + ·) 0 && mi ≥ 1 && rows x0.length xs then
+        if mode = "replay" then
+          showIG showRat (mclennanTourky nums pays eps tolbr (replayNext xs) mi x0)
+        else if mode = "real" then
+          showIG showRat (mclennanTourky nums pays eps tolbr (igNext 1000000 tolPivQ tolDiffQ) mi x0)
+        else "bad-op"
+      else "bad-op"
+    | _, _, _, _, _, _, _, _ => "bad-op"
+  | _ => "bad-op"
 
 end QE.C15
